@@ -443,10 +443,16 @@ func (ego *list) Equals(another List) bool {
 }
 
 func (ego *list) Concat(another List) List {
-	added := another.getVal().(*list).val
-	newList := &list{val: make([]field, len(ego.val), len(ego.val)+len(added))}
+	newList := &list{val: make([]field, len(ego.val), len(ego.val)+another.Count())}
 	copy(newList.val, ego.val)
-	newList.val = append(newList.val, added...)
+	if plain, ok := another.getVal().(*list); ok {
+		newList.val = append(newList.val, plain.val...)
+	} else {
+		// A derived structure embedding a list: its elements are taken over through the interface
+		another.ForEach(func(_ int, val any) {
+			newList.val = append(newList.val, parseVal(val))
+		})
+	}
 	newList.Init(newList)
 	return newList
 }
